@@ -9,6 +9,12 @@ R10.2 "does not depend on the segmentation" (bookkeeping half): on every path of
 R10.3 "both state words initialised to the seed": on every path of _mh_sha1_murmur3_x64_128_init that touches the
       context, after the clearing memset all 16 bytes of murmur3_x64_128_digest are written from the seed
       parameter (two 8-byte stores of the parameter, or 8-byte copies from a local that only ever holds it).
+R10.7 finalize feeds the carried partial block to the murmur block / tail functions before any callee that
+      modifies that buffer (the SHA-1 tail pads it in place): on no path does a call that only reads
+      ctx->partial_block_buffer follow a call whose callee stores through the same argument.
+R10.8 block loops keep their accumulators: in the stitched block functions no state word (murmur state, digest) is
+      re-loaded from memory in every loop iteration, left unwritten inside the loop, and written back from a
+      loop-computed register only after it (all iterations but the last would be lost).
 R10.4 every block implementation (the four stitched assembly functions and the scalar C block function) carries
       MurmurHash3_x64_128's block constants c1, c2, 0x52dce729, 0x38495ab5; the unit with the tail / finalisation
       carries the two fmix64 multipliers; the stitched SHA-1 halves carry the standard SHA-1 round constants and
@@ -19,6 +25,7 @@ R10.5 every store of the bit length into a padding buffer that the C source of t
 import re
 
 import build
+import cands
 import c01
 import ir
 import mhrules
@@ -101,6 +108,24 @@ def seed_rule(chk, mods):
         missing = sorted(set(range(16)) - covered)
         if missing:
             bad = bad or (P.retinst, "bytes %d..%d of murmur3_x64_128_digest are not initialised from the seed on a path that initialises the context" % (missing[0], missing[-1]))
+    # the seed reaches _init unnarrowed from every entry point that forwards one
+    if (F.args[1].get("ty") or "") != "i64":
+        bad = bad or (F.first(), "the seed parameter of %s is %s, not a 64-bit integer" % (F.name, F.args[1].get("ty")))
+    for M in mods.values():
+        for G in M.defined():
+            for I in G.calls(F.name):
+                if I.raw.get("nargs", 0) < 2:
+                    continue
+                r = G.resolve(I.ops[1])
+                okfw = isinstance(r, dict) and ((r.get("k") == "a" and (G.args[r["n"]].get("ty") or "") == "i64") or r.get("k") == "c")
+                chk.obligation("R10.3", okfw, key=("seed-forward", G.name), sample={"function": G.name, "forwards_seed_as": ir.expr_str(G, I.ops[1])})
+                if not okfw:
+                    wid = None
+                    if isinstance(r, ir.Inst) and r.op in ("zext", "sext"):
+                        src_ = G.resolve(r.ops[0])
+                        if isinstance(src_, dict) and src_.get("k") == "a":
+                            wid = G.args[src_["n"]].get("ty")
+                    chk.finding(Finding("R10.3", G.file or DIR, G.name, "seed-width", "%s forwards the seed to %s as `%s`%s: seeds of 2^32 and above are truncated before both state words are initialised" % (G.name, F.name, ir.expr_str(G, I.ops[1]), " (its own parameter is %s)" % wid if wid else ""), loc=I.loc()))
     chk.obligation("R10.3", bad is None and npaths > 0, key="seed", sample={"function": F.name, "seed_parameter": seed, "paths": npaths})
     if npaths == 0:
         chk.broke("_mh_sha1_murmur3_x64_128_init: no path touches the context")
@@ -108,16 +133,104 @@ def seed_rule(chk, mods):
         chk.finding(Finding("R10.3", F.file or DIR, F.name, "seed", bad[1] + ": the 128-bit result no longer starts from (seed, seed)", loc=bad[0].loc()))
 
 
+def writes_param(fnmap, G, k, depth=0, memo=None):
+    """Callee G (IR) may store through its k-th pointer parameter (directly, via memset/memcpy, or via a callee)."""
+    memo = memo if memo is not None else {}
+    key = (G.name, k)
+    if key in memo:
+        return memo[key]
+    memo[key] = False
+    res = False
+    for I in G.all_insts():
+        if I.op == "store":
+            r, _o = G.ptr_root(I.ops[1])
+            if G.is_arg(r, k):
+                res = True
+        elif I.op == "call":
+            cal = I.callee or ""
+            n = I.raw.get("nargs", 0)
+            if cal.startswith(("llvm.memset", "memset", "__memset_chk", "llvm.memcpy", "memcpy", "__memcpy_chk", "llvm.memmove", "memmove")):
+                r, _o = G.ptr_root(I.ops[0])
+                if G.is_arg(r, k):
+                    res = True
+            elif depth < 3:
+                H = fnmap.get(cal)
+                for j, o in enumerate(I.ops[:n]):
+                    r, _o = G.ptr_root(o)
+                    if G.is_arg(r, k):
+                        if H is None or H.decl:
+                            if not cal.startswith("llvm."):
+                                res = True          # unknown callee: assume it may write
+                        elif writes_param(fnmap, H, j, depth + 1, memo):
+                            res = True
+        if res:
+            break
+    memo[key] = res
+    return res
+
+
+def tail_order_rule(chk, mods):
+    fnmap = {}
+    for M in mods.values():
+        for G in M.defined():
+            fnmap.setdefault(G.name, G)
+    n = 0
+    for src, M in sorted(mods.items()):
+        if not src.startswith(DIR + "/"):
+            continue
+        for F in M.defined():
+            if not re.match(r"^_mh_sha1_murmur3_x64_128_finalize_\w+$", F.name):
+                continue
+            ctx_n = F.arg_index("ctx")
+            if ctx_n is None:
+                continue
+            n += 1
+            bad = None
+            nread = nwrite = 0
+            for P in ir.paths_with_facts(F, max_paths=5000):
+                if P.contradictory(F):
+                    continue
+                written_by = None
+                for I in P.insts:
+                    if I.op != "call" or (I.callee or "").startswith("llvm.dbg"):
+                        continue
+                    G = fnmap.get(I.callee or "")
+                    for j, o in enumerate(I.ops[:I.raw.get("nargs", 0)]):
+                        fld = F.field(o)
+                        if not (fld and F.is_arg(fld[0], ctx_n) and fld[1] and fld[1][0][1] == "partial_block_buffer"):
+                            continue
+                        w = True if (G is None or G.decl) else writes_param(fnmap, G, j)
+                        if w:
+                            nwrite += 1
+                            written_by = written_by or I
+                        else:
+                            nread += 1
+                            if written_by is not None:
+                                bad = bad or (I, written_by)
+            chk.obligation("R10.7", bad is None and nread > 0 and nwrite > 0, key=(src, F.name), sample={"unit": src, "function": F.name, "reader_calls": nread, "writer_calls": nwrite})
+            if bad:
+                chk.finding(Finding("R10.7", src, F.name, "tail-order", "%s reads the carried partial block after %s (line %s) may already have modified it in place: the murmur result then depends on the SHA-1 padding" % (bad[0].callee, bad[1].callee, bad[1].line), loc=bad[0].loc()))
+            elif not (nread and nwrite):
+                chk.broke("%s: expected a reader and a writer of partial_block_buffer (found %d / %d)" % (F.name, nread, nwrite))
+    chk.floor("finalize functions checked for tail order", n, 5)
+
+
 def run(chk):
     units, stats = build.build("default")
     lib = x86.Library(units)
     chk.extra["build"] = stats
     mods = ir.load_modules([u for u in units if u["kind"] == "c" and u["src"].split("/")[0] in (DIR, "mh_sha1")])
+    nbind = cands.binding_rule(chk, "R10.6", lib, ['_mh_sha1_murmur3_'])
+    chk.floor("implementations checked for binding ownership", nbind, 1)
     nb = mhrules.block_alignment(chk, "R10.1", lib, mods, "_mh_sha1_murmur3_x64_128_block")
     chk.floor("stitched assembly block functions", nb, 4)
     nu = mhrules.total_length_rule(chk, "R10.2", {k: v for k, v in mods.items() if k.startswith(DIR + "/")}, r"^_mh_sha1_murmur3_x64_128_update_\w+$")
     chk.floor("update functions", nu, 5)
     seed_rule(chk, {k: v for k, v in mods.items() if k.startswith(DIR + "/")})
+    tail_order_rule(chk, mods)
+    nls = mhrules.loop_state_rule(chk, "R10.8", lib, r"^_mh_sha1_murmur3_x64_128_block_\w+$")
+    chk.floor("stitched block functions with loops checked for accumulator discipline", nls, 4)
+    mhrules.bit_length_width(chk, "R10.5", {k: v for k, v in mods.items() if k.startswith(DIR + "/")})
     ns = mhrules.length_store_survives(chk, "R10.5", lib, {k: v for k, v in mods.items() if k.startswith(DIR + "/")})
     chk.extra["bit_length_stores_checked"] = ns
     # R10.4 constants
